@@ -32,13 +32,13 @@ Definition C12_rest_statement : Prop :=
         stmt_text c KSelect d rest ob fu p = select_head c d p rest ++ ob ++ render_page c KSelect p ++ fu)
   /\ (forall c d rest ob fu p, stmt_text c KSetOp d rest ob fu p = rest ++ ob ++ render_page c KSetOp p)
   /\ (x_select_tail_order = [ClOrderBy; ClPagination; ClForUpdate]
-      /\ x_setop_tail_order = [ClOrderBy; ClLimit; ClOffset] /\ x_update_tail_order = [ClWhere; ClLimit])
+      /\ x_setop_tail_order = [ClOrderBy; ClPagination] /\ x_update_tail_order = [ClWhere; ClLimit])
   (* FETCH family: offset before fetch; MSSQL: an offset (0 if none was given) whenever a fetch is present *)
-  /\ (forall c p, is_fetch c = true -> In (page_pieces c KSelect p) [[]; [POffset]; [PLimit]; [POffset; PLimit]])
-  /\ (forall n m lb tp, page_pieces CMSSQL KSelect (mkPage (Some n) m lb tp) = [POffset; PLimit])
-  /\ (forall n, render_page CMSSQL KSelect (pg (Some n) None) = " OFFSET 0 ROWS FETCH NEXT " ++ Z_to_string n ++ " ROWS ONLY")
+  /\ (forall c k p, is_fetch c = true -> k <> KUpdate -> In (page_pieces c k p) [[]; [POffset]; [PLimit]; [POffset; PLimit]])
+  /\ (forall k n m lb tp, k <> KUpdate -> page_pieces CMSSQL k (mkPage (Some n) m lb tp) = [POffset; PLimit])
+  /\ (forall k n, k <> KUpdate -> render_page CMSSQL k (pg (Some n) None) = " OFFSET 0 ROWS FETCH NEXT " ++ Z_to_string n ++ " ROWS ONLY")
   (* LIMIT family: LIMIT before OFFSET; ClickHouse: LIMIT BY ahead of the ordinary LIMIT *)
-  /\ (forall c k p, is_fetch c = false \/ k <> KSelect -> In (page_pieces c k p) [[]; [PLimit]; [POffset]; [PLimit; POffset]])
+  /\ (forall c k p, is_fetch c = false \/ k = KUpdate -> In (page_pieces c k p) [[]; [PLimit]; [POffset]; [PLimit; POffset]])
   /\ (forall p x, lby p = Some x ->
         page_toks CClickHouse KSelect p = (limit_by_toks x ++ page_toks CClickHouse KSelect (set_lby None p))%list)
   (* the readers are strict: the wrong orders / a bare OFFSET are not in the grammars *)
@@ -53,19 +53,33 @@ Definition C12_rest_statement : Prop :=
 
 Definition C12_full_statement : Prop := C12_window_statement /\ C12_rest_statement.
 
-(* ---- the full statement is refuted by the faithful model: three families of witnesses ---- *)
+(* ---- the full statement is refuted by the faithful model: two families of witnesses (a third, Oracle/MSSQL set operations, was repaired by 8f3d161) ---- *)
 Theorem C12_refuted_bare_offset :
   render_page CSQLLite KSelect (pg None (Some 5%Z)) = " OFFSET 5"
   /\ denote_page (family_of CSQLLite) (render_page CSQLLite KSelect (pg None (Some 5%Z))) = None.
 Proof. split; vm_compute; reflexivity. Qed.
 Print Assumptions C12_refuted_bare_offset.
 
-Theorem C12_refuted_setop_fetch :
-  render_page COracle KSetOp (pg (Some 7%Z) (Some 5%Z)) = " LIMIT 7 OFFSET 5"
-  /\ denote_page (family_of COracle) (render_page COracle KSetOp (pg (Some 7%Z) (Some 5%Z))) = None
-  /\ denote_page (family_of CMSSQL) (render_page CMSSQL KSetOp (pg (Some 0%Z) None)) = None.
-Proof. repeat split; vm_compute; reflexivity. Qed.
-Print Assumptions C12_refuted_setop_fetch.
+(* repaired by 8f3d161 (was C12_refuted_setop_fetch): a set operation paginates in the syntax of its base class;
+   for Oracle and MSSQL the window clause now holds for ALL n, m >= 0 *)
+Theorem C12_setop_fetch_holds : forall c p, is_fetch c = true -> page_ok p = true ->
+  denote_page (family_of c) (render_page c KSetOp p) = Some (requested c KSetOp p).
+Proof. intros c p Hc Hp. apply denote_render; [exact Hp | unfold frag; now rewrite Hc]. Qed.
+Print Assumptions C12_setop_fetch_holds.
+
+(* and for every class a set operation renders exactly the pagination tail of a SELECT of that class
+   (ClickHouse: without the LIMIT BY part, which a set operation does not have) *)
+Theorem C12_setop_as_select : forall c p,
+  render_page c KSetOp p = render_page c KSelect (set_lby None p).
+Proof. intros c p. destruct p as [n m lb tp]. destruct c; reflexivity. Qed.
+Print Assumptions C12_setop_as_select.
+
+Example C12_setop_fetch_example :
+  render_page COracle KSetOp (pg (Some 7%Z) (Some 5%Z)) = " OFFSET 5 ROWS FETCH NEXT 7 ROWS ONLY"
+  /\ render_page CMSSQL KSetOp (pg (Some 0%Z) None) = " OFFSET 0 ROWS FETCH NEXT 0 ROWS ONLY"
+  /\ denote_page (family_of CMSSQL) (render_page CMSSQL KSetOp (pg (Some 0%Z) None)) = Some (mkW 0 (Some 0%Z) None).
+Proof. vm_compute. repeat split. Qed.
+Print Assumptions C12_setop_fetch_example.
 
 Theorem C12_refuted_mssql_update :
   render_page CMSSQL KUpdate (pg (Some 2%Z) None) = " FETCH NEXT 2 ROWS ONLY"
@@ -108,12 +122,12 @@ Print Assumptions C12_rest_holds.
 
 (* ---- the model reproduces every table regenerated from the sources on this run ---- *)
 Theorem C12_tables_agree :
-  (forallb limit_tpl_ok x_limit_tpl = true /\ forallb offset_tpl_ok x_offset_tpl = true /\ forallb setop_tpl_ok x_setop_tpl = true)
+  (forallb limit_tpl_ok x_limit_tpl = true /\ forallb offset_tpl_ok x_offset_tpl = true)
   /\ forallb grid_row_ok x_grid = true /\ forallb effect_row_ok x_effects = true
   /\ forallb position_row_ok x_position = true /\ forallb limit_by_row_ok x_limit_by = true
   /\ forallb top_row_ok x_top = true.
 Proof.
-  pose proof templates_agree as (a & _ & b & _ & c & _).
+  pose proof templates_agree as (a & _ & b & _).
   repeat split; auto; first [apply grid_agrees | apply effects_agree | apply positions_agree | apply limit_by_agrees | apply top_agrees].
 Qed.
 Print Assumptions C12_tables_agree.
@@ -127,7 +141,7 @@ Example C12_example_window :
      = Some (mkW 99 (Some 1000000000000%Z) (Some (3%Z, 2%Z, """a"",""b""")))
   /\ frag CMSSQL KSelect (pg (Some 0%Z) None) = true
   /\ render_page CMSSQL KSelect (pg (Some 0%Z) None) = " OFFSET 0 ROWS FETCH NEXT 0 ROWS ONLY"
-  /\ frag CQuery KSelect (pg None (Some 5%Z)) = false /\ frag COracle KSetOp (pg (Some 7%Z) None) = false.
+  /\ frag CQuery KSelect (pg None (Some 5%Z)) = false /\ frag COracle KSetOp (pg (Some 7%Z) None) = true /\ frag CSQLLite KSetOp (pg None (Some 5%Z)) = false.
 Proof. vm_compute. repeat split. Qed.
 Print Assumptions C12_example_window.
 
